@@ -133,7 +133,7 @@ Definition w1_init := init_state [new_pool F4 1 0 0 (GRange a1 a1 [])]
                                  [new_sess 1 true (Some 0) None 1; new_sess 2 true (Some 0) None 2; new_sess 3 true (Some 0) None 3].
 Definition w1_ops := [PA 1 0 None None None None None None; PA 2 0 None None None None None None;
                       PA 3 0 None None None None None None; PI 2 (Some fallback_addr)].
-(* today's code: sessions 2 and 3, same VRF, both live, both hold 100.64.0.1 (and IPCP acked it for 2) *)
+(* before fix 24c9504: sessions 2 and 3, same VRF, both live, both hold 100.64.0.1 (and IPCP acked it for 2) *)
 Theorem C02_unique_refuted :
   let st := run_first Defective w1_init w1_ops in
   holds_of st 2 F4 = Some (fallback_addr, 0) /\ holds_of st 3 F4 = Some (fallback_addr, 0).
@@ -145,7 +145,7 @@ Definition w2_init := init_state [new_pool F4 1 0 1 (GRange a1 a1 []); new_pool 
                                  [new_sess 1 false (Some 0) None 1; new_sess 2 true (Some 0) None 2; new_sess 3 true (Some 0) None 3].
 Definition w2_ops := [ID true true None 1 1 None None; PA 2 2 None None None None None None; IR 1;
                       PA 3 2 None None None None None None].
-(* today's code: session 2 (VRF 2, still live) and session 3 (VRF 2) both hold 10.0.0.1 *)
+(* still open at HEAD (unchecked release): session 2 (VRF 2, still live) and session 3 (VRF 2) both hold 10.0.0.1 *)
 Theorem C02_release_only_own_refuted :
   let st := run_first Defective w2_init w2_ops in
   holds_of st 2 F4 = Some (a1, 0) /\ holds_of st 3 F4 = Some (a1, 0).
@@ -157,7 +157,7 @@ Definition w3_init := init_state [new_pool F4 1 0 0 (GRange a1 a1 [])]
                                  [new_sess 1 false (Some 0) None 1; new_sess 2 false (Some 0) None 2; new_sess 3 true (Some 0) None 3].
 Definition w3_ops := [ID false false None 1 0 None None; ID true true None 1 0 None None; IT 1; IA 1; ID false false None 2 0 (Some a1) None;
                       PA 3 0 None None None None None None].
-(* today's code: session 2 is offered 10.0.0.1, the registry holds nothing for it, session 3 gets 10.0.0.1 *)
+(* before fix 58e16d0: session 2 is offered 10.0.0.1, the registry holds nothing for it, session 3 gets 10.0.0.1 *)
 Theorem C02_told_is_recorded_refuted :
   let st := run_first Defective w3_init w3_ops in
   holds_of st 2 F4 = Some (a1, 0) /\ holds_of st 3 F4 = Some (a1, 0) /\
@@ -228,9 +228,9 @@ Proof. exact ipoe_recorded_is_told. Qed.
 Print Assumptions C02_ipoe_recorded_is_told.
 
 (* ------------------------------------------------------------------ the code at /repo HEAD *)
-(* [Head] = the variant /repo HEAD implements (constant fall-back, expiry take-over, pending-ACK and nil-pool
-   defects fixed; unchecked release, unresolved answer from the lease table, untracked out-of-pool statics,
-   VRF-blind containment walk / override, restore keeping conflicting addresses still present).
+(* [Head] = the variant /repo HEAD implements (fixed: constant fall-back 24c9504, expiry take-over 58e16d0,
+   unresolved answers d5fadd1, pending ACK b04c868, nil pool d114f02; still open: unchecked release, untracked
+   out-of-pool statics, VRF-blind containment walk / override, restore keeping conflicting addresses).
    [reach_benign]: at every step of the history HEAD has exactly the successors of the Repaired model, i.e. none of
    the recorded known-finding triggers fires at that step (checkable per step; the driver does it for every case).
    C02_head_triggers characterises the triggers at the primitives: outside them the variants coincide. *)
@@ -268,8 +268,8 @@ Theorem C02_head_triggers :
   (forall f x vrf s r, (exists p, In p (fam_pools f r) /\ contains p x = true) ->
      (forall p, In p (fam_pools f r) -> contains p x = true -> p_vrf p = vrf) ->
      reserve_cont Head f x vrf s r = reserve_cont Repaired f x vrf s r) /\
-  (* dhcp4-unresolved-answered-from-lease-table: only when the MAC has a lease-table entry *)
-  (forall r pr s isreq rq, assoc (s_mac s) (by_mac pr) = None -> unresolved Head r pr s isreq rq = None) /\
+  (* an unresolved DISCOVER/REQUEST is never answered (fixed in /repo d5fadd1) *)
+  (forall r pr s isreq rq, unresolved Head r pr s isreq rq = None) /\
   (* pool override: only when it names a pool of another VRF *)
   (forall f prof ov vrf s r,
      (forall k p, ov = Some k -> In p (fam_pools f r) -> p_key p = k -> p_vrf p = vrf) ->
